@@ -1,0 +1,6 @@
+//go:build verif
+
+// Contracts for package http2, read by /verif/h2vc (see /verif/DESIGN.md section 3).
+// This file holds comments only and is compiled only with the `verif` build tag.
+
+package http2
